@@ -134,7 +134,7 @@ async fn peer(listener: tokio::net::TcpListener, ctl: Ctl) {
 }
 
 async fn wait_until<F: Fn(&Shared) -> bool>(ctl: &Ctl, f: F) -> bool {
-    for _ in 0..1500 {
+    for _ in 0..6000 {
         if f(&ctl.lock().unwrap()) {
             return true;
         }
@@ -239,7 +239,7 @@ async fn run_case(line: &str) -> String {
             }
             "done" => {
                 let mut fin = false;
-                for _ in 0..1500 {
+                for _ in 0..6000 {
                     if jh.is_finished() {
                         fin = true;
                         break;
